@@ -268,8 +268,9 @@ def check_side_effects(res, job, r, where):
                       f'modification time) by the conversion ({where})',
                       payload, found_input=True)
         clean = False
-    expected = set(CACHE_FILES) if '--cache' in job['args'] else set()
-    extra = [f for f in r['new_files'] if f not in expected]
+    extra = [f for f in r['new_files']
+             if not ('--cache' in job['args'] and f.startswith('deck.')
+                     and f.endswith('.cache'))]
     if extra:
         payload['observed'] = r['new_files']
         res.violation('impl-violation',
@@ -378,13 +379,13 @@ def _sweep(res, tier, seed, rng, scratch):
                    not worker_errors, '; '.join(worker_errors[:3]))
     # cold-started interpreters for a sample: must agree with the forked ones
     n_cold = 16 if quick else 120
-    cold_items = [(rng.randrange(len(jobs)), rng.choice(hashseeds))
-                  for _ in range(n_cold)]
+    cold_items = [(n, rng.randrange(len(jobs)), rng.choice(hashseeds))
+                  for n in range(n_cold)]
 
     def cold(item):
-        k, hs = item
+        n, k, hs = item
         out, err = run_worker([strip_job(jobs[k])], hs, scratch,
-                              f'c{k}_{hs}')
+                              f'c{n}_{k}_{hs}')
         return k, hs, out, err
 
     cold_errors = []
